@@ -5,6 +5,15 @@ CHECKS = {
  "C08": dict(cat="exploration", technique="runtime monitor: generator-known-answer over dependency syntax with hostile trivia; independent position mapping; includes() probing; corpus slice oracle",
    text="Programs are assembled from 22 dependency-bearing construct kinds, pragmas and hostile trivia (non-ASCII, astral, combining, CRLF, escapes); the generator records the exact token it wrote for every specifier. The real analyser's output must be in bijection with them in source order, every range must slice (through an independent line/scalar-column mapping) to exactly that token, the text must equal the unescaped value, and Dependency::includes is probed at every position of every range. 25 000 programs / 2M position probes quick; plus every JS/TS source embedded in tests/specs.",
    note="no BOM at analyser level (the graph strips it while decoding; deno_ast rejects it); pragmas are placed on their own line", ref="§6 C08"),
+ "C09": dict(cat="exploration", technique="runtime monitor: re-parse of every emitted fast-check module (scope analysis, cross-module export closure over emitted counterparts, VLQ source-map decoder) on generated packages and the fast-check spec corpus",
+   text="Packages are rendered from a declaration graph (15 declaration kinds, default exports, 1-5 files, named / namespace / type-only / default imports, inline import types, imports through one or two `export *` hops, `typeof ns`, named / star / namespace re-exports, 1-2 entrypoints), served as JSR packages and run through the real build + build_fast_check_type_graph; plus every package of tests/specs/graph/fast_check. Every emitted module must parse; a name the original binds at module level and the output leaves unbound is dangling; every named import / re-export must name an export of the target's emitted counterpart; relative specifiers must resolve in the graph; the source map is decoded (VLQ) and every identifier-starting segment must map to the same identifier.",
+   note="module-level scope is computed by the monitor itself (swc's resolver leaves references before an `export default interface` unresolved); ambient-class private members naming dropped classes are a known finding pinned by a golden spec", ref="§7 C09"),
+ "C10": dict(cat="exploration", technique="runtime monitor: erasure-grammar checker over the re-parsed fast-check output + dirty-package oracle (one spoiled public declaration must give a located diagnostic and no output)",
+   text="Same generated packages and corpus as C09. Clean packages: the grammar of DESIGN Appendix B is checked on every emitted module (bodies empty or a placeholder return, placeholder super calls, no statements, literal-like initialisers only, every parameter typed or with a literal-like default, explicit return types, TS-private members reduced to declare-any, ES-private members and decorators gone). A quarter of the packages have one public declaration spoiled in one of 15 ways (missing return types, untyped / destructured / rest parameters incl. body-less overload and abstract signatures, untyped properties, calls and `new` nested in otherwise leavable arrays, objects, template slots and conditionals): no module of the package may have output and a diagnostic must lie inside the spoiled declaration (span from an independent parse).",
+   note="ambient-class TS-private methods keep their signatures: known finding pinned by a golden spec", ref="§7 C10, Appendix B"),
+ "C11": dict(cat="exploration", technique="runtime monitor: generator-known-answer (intended export sets and public reachability) + relational AST comparison of every signature slot between source and emitted module",
+   text="Same generated packages and corpus as C09. Entrypoints: the emitted export names (star re-exports expanded over emitted modules) equal the generator's intended set; every emitted module exports a subset of its original; kinds are kept; every declaration the generator's reachability model marks public is declared in the output and every other one is not; every signature slot (parameter, return, property, type-parameter list, extends / implements, interface body, alias body, enum member names; overload-indexed, namespaces recursed) present in both is compared by span-insensitive AST equality, with only the documented `T | undefined` normalisation for defaulted parameters allowed.",
+   note="overload implementation signatures are not public and are skipped", ref="§7 C11"),
  "C13": dict(cat="exploration", technique="runtime monitor: serde round trip over generated and hand-built module infos; v1 upgrade known-answer; relational check embedded-vs-parsed registry builds",
    text="(a) from_value(to_value(info)) == info with stable JSON for the ModuleInfo of every generated program and for hand-built values covering every field/variant; (b) generated moduleGraph1 entries through JsrPackageVersionInfo::module_info must keep every @deno-types (text and range); (c) each generated registry world is built from parsed sources and from module info embedded as moduleGraph2/moduleGraph1 (computed by this analyser), with registry files cached and uncached: serialised graphs identical.",
    note="embedded info is produced by the same analyser from the served sources (the statement's proviso)", ref="§4 C13"),
